@@ -87,6 +87,9 @@ def freeze_once():
     if not _frozen:
         gc.collect()
         gc.freeze()
+        # object lifetimes (a deleted widget gives its z-index back when it is finalized) must be a function
+        # of the history alone: no automatic collections, explicit ones at fixed points (end of every redraw)
+        gc.disable()
         _frozen = True
 
 
@@ -375,9 +378,6 @@ class Stage:
             sp["scroll"] = min(sp["scroll"], self.max_scroll())
         self.check_z()
         self.draw()
-        if self.pending_gc:
-            gc.collect()
-            self.pending_gc = False
         self.check_z()
 
     def guard(self, where, fn, *a):
@@ -517,7 +517,8 @@ class Stage:
                 self.report(dict(clause="cells", **ctx),
                             f"{len(bad)} text cell(s) differ from a fresh draw, first: {bad[0]}; scene={self.spec}")
         self.prev_top_kind = ck
-        return canvas
+        del canvas, ref
+        gc.collect()
 
     _fresh_cache = {}
     _world_key = None
@@ -560,7 +561,7 @@ class Stage:
         ws = tuple((wid, kind, getattr(w, "_ti_z_index", None), w._ti_disguise_state, wid in self.widgets)
                    for wid, kind, w in self.live_widgets() if wid in self.widgets or kind == "K")
         return h64(repr((self.spec, ws, um.UrwidImageCanvas._ti_disguise_state,
-                         sorted(um.UrwidImage._ti_free_z_indexes), um.UrwidImage._ti_next_z_index)))
+                         tuple(um.UrwidImage._ti_free_z_indexes), um.UrwidImage._ti_next_z_index)))
 
     def close(self):
         self.tty.sink = None
